@@ -52,11 +52,35 @@ def vector_model(fn, s, nname):
         cal = c.callee or ""
         if cal.startswith("std::vector<") and cal.split("::")[-1] in ("vector", "reserve", "push_back", "resize", "emplace_back", "clear", "assign", "pop_back", "insert"):
             ev.append(("call", c.node["id"], c))
+        if cal in ("std::fill_n", "std::fill") and c.args and str(c.args[0]).replace(" ", "") in ("begin(rv)", "data(rv)"):
+            ev.append(("fill", c.node["id"], c))
     for a in s.accesses:
-        if a.kind == "store" and a.idx is not None and a.base == "rv":
+        if a.kind == "store" and a.idx is not None and a.base == "rv" and getattr(a, "bulk", None) is None:
             ev.append(("store", a.node["id"], a))
     ev.sort(key=lambda t: t[1])
     for kind, _, x in ev:
+        if kind == "fill":
+            A.require(size is not None, "%s: vector used before it is constructed" % fn["qname"])
+            if x.callee == "std::fill_n":
+                cnt = x.args[1]
+                val = x.args[2] if x.args[2] is not None else _zero_literal(x.arg_nodes[2]) if x.arg_nodes[2] is not None else None
+            else:
+                A.require(str(x.args[1]).replace(" ", "") == "end(rv)", "%s: std::fill over part of the vector" % fn["qname"])
+                cnt = size
+                val = x.args[2] if x.args[2] is not None else _zero_literal(x.arg_nodes[2])
+            A.require(cnt is not None, "%s: fill with untranslatable count" % fn["qname"])
+            # overwrite: earlier regions are cut back to what the fill leaves of them
+            cut = []
+            for (lo_, hi_, v_, k_, ln_, L_) in regions:
+                if lo_ == 0 and sp.expand(hi_ - cnt) != 0:
+                    cut.append((cnt, hi_, v_, k_, ln_, L_))          # [0,hi) minus [0,cnt) = [cnt,hi)
+                elif lo_ == 0:
+                    continue
+                else:
+                    cut.append((lo_, hi_, v_, k_, ln_, L_))
+            regions[:] = cut
+            regions.append((sp.Integer(0), cnt, val, "fill", x.line, None))
+            continue
         if kind == "call":
             m = x.callee.split("::")[-1]
             obj = A.call_object(x.node)
@@ -244,7 +268,27 @@ def run(chk, prog):
     chk.used(mk)
     idx = A.index(mk)
     adds = [x for x in A.walk(mk["body"]) if x["k"] == "CXXOperatorCallExpr" and x.get("op") == "+=" and x.get("callee_class") == "vfps::Impedance"]
-    marks = [x for x, lhs, op, rhs in A.assignments_in(mk["body"]) if (A.declref(lhs) or {}).get("name") == "impedance_changed" and A.strip(rhs).get("value") is True]
+    # marking the impedance as changed: `impedance_changed = true`, directly or through a local lambda that does it
+    def direct_mark(n_):
+        return n_.get("k") == "BinaryOperator" and n_.get("op") == "=" and (A.declref(n_["c"][0]) or {}).get("name") == "impedance_changed" and A.strip(n_["c"][1]).get("value") is True
+    mark_lambdas = set()
+    for x in A.walk(mk["body"]):
+        if x["k"] == "DeclStmt":
+            for d_ in x["decls"]:
+                if d_.get("k") == "VarDecl" and "init" in d_:
+                    lam = [y for y in A.walk(d_["init"]) if y.get("k") == "LambdaExpr"]
+                    if lam and lam[0].get("body") is not None and any(direct_mark(y) for y in A.walk(lam[0]["body"])):
+                        # every path through the lambda must set the flag: only an unconditional top-level statement counts
+                        if any(direct_mark(A.strip(t, casts=False)) for t in lam[0]["body"].get("c", [])):
+                            mark_lambdas.add(d_["decl"])
+    lambda_ids = set()
+    for x in A.walk(mk["body"]):
+        if x.get("k") == "LambdaExpr" and x.get("body") is not None:
+            lambda_ids |= {y["id"] for y in A.walk(x["body"])}
+
+    def via_lambda(n_):
+        return n_.get("k") == "CXXOperatorCallExpr" and n_.get("op") == "()" and n_.get("args") and (A.declref(n_["args"][0]) or {}).get("decl") in mark_lambdas
+    marks = [x for x in A.walk(mk["body"]) if (direct_mark(x) and x["id"] not in lambda_ids) or via_lambda(x)]
     A.require(len(adds) >= 4 and len(marks) >= 3, "makeImpedance: contributions / change marks not found")
 
     def innermost_if(x):
@@ -252,7 +296,7 @@ def run(chk, prog):
         return e[0]["id"] if e else None
     g = Fl.CFG(mk)
     is_add = lambda n_: n_.get("k") == "CXXOperatorCallExpr" and n_.get("op") == "+=" and n_.get("callee_class") == "vfps::Impedance"
-    is_mark = lambda n_: n_.get("k") == "BinaryOperator" and n_.get("op") == "=" and (A.declref(n_["c"][0]) or {}).get("name") == "impedance_changed" and A.strip(n_["c"][1]).get("value") is True
+    is_mark = lambda n_: direct_mark(n_) or via_lambda(n_)
     # every add is preceded by a mark on every path, and every mark is followed by an add (no path from a mark to exit without an add)
     for (b, i, n_), ok in g.every_path_to(is_add, is_mark):
         chk.check(ok, "R5", A.loc(mk, n_), "contribution `%s` is added only after the impedance was marked as changed" % A.show(n_)[:60], "makeImpedance:add-without-mark")
@@ -319,8 +363,17 @@ def run(chk, prog):
         pos, nz = set(), set()
         for e_ in A.enclosing(idx, node, {"IfStmt"}):
             in_then = node["id"] in {y["id"] for y in A.walk(e_["then"])}
-            if not in_then:
-                continue
+            cond_ = e_["cond"]
+            pol_ = in_then
+            while True:
+                t_ = A.strip(cond_)
+                if t_.get("k") == "UnaryOperator" and t_.get("op") == "!" and t_.get("c"):
+                    cond_ = t_["c"][0]
+                    pol_ = not pol_
+                    continue
+                break
+            if not pol_:
+                continue            # the negation of a conjunction gives no per-variable fact
             conj = []
 
             def split(n_):
@@ -329,7 +382,7 @@ def run(chk, prog):
                     split(n_["c"][0]); split(n_["c"][1])
                 else:
                     conj.append(n_)
-            split(e_["cond"])
+            split(cond_)
             for c_ in conj:
                 if c_.get("k") != "BinaryOperator":
                     continue
